@@ -56,6 +56,14 @@ static void run_case(Rng& rng, uint64_t) {
         all<Elem8>(sh);
         all<Elem32>(sh);
         if (r % 4 == 0) all<ElemStr>(sh);
+        if (r % 4 == 2) {
+            all<ElemT16>(sh);
+            // every element object the merges made (also inside the loser trees) is gone again
+            if (verif::Ledger::get().live_count() != 0 && !verif::case_failed())
+                verif::fail("C05:lifetime:elements-alive-after-merge", std::to_string(verif::Ledger::get().live_count()) + " element objects alive after the merges of " + sh.str());
+            verif::Ledger::get().live.clear(); verif::Ledger::get().errors = 0;
+            verif::count("shapes_with_ledger_elements");
+        }
         verif::count("shapes");
         if (sh.n_empty) verif::count("shapes_with_empty_sequences");
         if (sh.length < sh.total) verif::count("shapes_with_partial_length");
@@ -63,5 +71,5 @@ static void run_case(Rng& rng, uint64_t) {
     verif::count("merges_checked", g_merges - m0);
 }
 
-static void init() { verif::property_id() = "C05"; }
+static void init() { verif::property_id() = "C05"; verif::Ledger::get().prop = "C05"; }
 VERIF_MAIN_INIT(run_case, init)
